@@ -1,6 +1,7 @@
 import H3.Lemmas.ReqRecv
 import H3.Lemmas.ReqLift
 import H3.Lemmas.ReqPoll
+import H3.Lemmas.ReqSplit
 import H3.Lemmas.FrameRefSpec
 import H3.Drv.C03
 /-! # C03 — request streams accept exactly the RFC 9114 §4.1 frame sequences
@@ -984,6 +985,51 @@ example : ∃ toks e, TiedS ((polledReq.take 8) ++ [.reset 9]) toks e ∧ (∀ t
     (by decide +kernel)
 example : observe (documentedPolledChunks .server (H3.Drv.C03.hdrFor .server) ((polledReq.take 8) ++ [.reset 9])) =
     { calls := [.head H3.Drv.C03.blkRequest, .body [0xc1], .resetBy 9] } := by decide +kernel
+
+/-! ## `split()` in the middle of reading
+
+`RequestStream::split` hands the receive half the buffered bytes, the decoder state,
+`remaining_data` and the saved trailers (`St.recvHalf`: nothing the receive calls look at changes).
+In the scenario machine `Sim` — what the correspondence run executes against the real
+`RequestStream::split`, split at every position of a multi-chunk DATA frame and between the end of
+the body and the trailers — a `split` is a call like the others: posted while another call waits
+it waits in the mailbox, posted to a task that has ended or to a resolver it is refused. -/
+
+/-- **Splitting at any point does not change the digest.**  Take ANY scenario (peer events and API
+    calls in any order, any header oracle, either role) and remove every `split` from it — or, read
+    the other way, insert `split` calls ANYWHERE: before, between or behind the receive calls,
+    while a call is pending, several times.  The two runs end with the same stream state (buffered
+    bytes, decoder state, `remaining_data`, saved trailers, error cell, resets sent), the same task
+    life, the same call in progress, and the same log of answers — every `recv_data` piece, the end
+    of the body, the trailers, every error, in the same order — except for the `split` entries
+    themselves. -/
+theorem C03_split_preserves_outcome (H : Hdr) (role : Role) (ops : List Op) :
+    (runOps H { role := role } ops).st = (runOps H { role := role } (ops.filter fun o => !o.isSpCall)).st ∧
+    (runOps H { role := role } ops).alive = (runOps H { role := role } (ops.filter fun o => !o.isSpCall)).alive ∧
+    (runOps H { role := role } ops).inflight =
+      (runOps H { role := role } (ops.filter fun o => !o.isSpCall)).inflight ∧
+    (runOps H { role := role } ops).log.filter notSpL =
+      (runOps H { role := role } (ops.filter fun o => !o.isSpCall)).log.filter notSpL := by
+  have h := runOps_noSp H ops { role := role } { role := role } (SimEq.refl _) (fun _ => rfl) (fun _ => rfl)
+  exact ⟨h.st, h.alive, h.inflight, h.log⟩
+
+/-! non-vacuity: a request whose DATA(3) payload arrives in three chunks; one piece is read on the
+    whole stream, the stream is split inside the frame, the rest and the trailers are read on the
+    receive half (and the stream is split once more before the trailers) -/
+def opsSplit : List Op :=
+  [.ev (.chunk ([0x01, 0x0d] ++ H3.Drv.C03.blkRequest ++ [0x00, 0x03, 0xa1])), .call { cmd := .res, halt := true },
+   .call { cmd := .rd, halt := true }, .call { cmd := .sp }, .ev (.chunk [0xa2]), .ev (.chunk [0xa3]),
+   .ev (.chunk ([0x01, 0x06] ++ H3.Drv.C03.blkTrailer)), .call { cmd := .rda, halt := true }, .call { cmd := .sp },
+   .ev .fin, .call { cmd := .rt }]
+
+example : (runOps (H3.Drv.C03.hdrFor .server) { role := .server } opsSplit).log.reverse =
+    [(.res, .res (.head H3.Drv.C03.blkRequest)), (.rd, .res (.data [0xa1])), (.sp, .ok), (.rd, .res (.data [0xa2])),
+     (.rd, .res (.data [0xa3])), (.rd, .res .end_), (.sp, .ok), (.rt, .res (.trailers H3.Drv.C03.blkTrailer))] := by
+  decide +kernel
+example : ((runOps (H3.Drv.C03.hdrFor .server) { role := .server } (opsSplit.filter fun o => !o.isSpCall)).log.reverse) =
+    [(.res, .res (.head H3.Drv.C03.blkRequest)), (.rd, .res (.data [0xa1])), (.rd, .res (.data [0xa2])),
+     (.rd, .res (.data [0xa3])), (.rd, .res .end_), (.rt, .res (.trailers H3.Drv.C03.blkTrailer))] := by
+  decide +kernel
 
 /-- Why the simulation is `FrameSimP` and not `FrameSim`: for a script with a `Pending` before
     more data NO relation containing the initial configuration is a `FrameSim` between the
